@@ -234,7 +234,12 @@ def match_template(template, program):
                     val = float(res[-1])
 
                 if key in argmatch:
-                    if argmatch[key] != val:
+                    try:
+                        same = bool(np.isclose(argmatch[key], val))
+                    except TypeError:
+                        same = argmatch[key] == val
+
+                    if not same:
                         raise TemplateError("Template parameter {} matches inconsistent values: "
                                             "{} and {}".format(key, val, argmatch[key]))
 
